@@ -46,6 +46,10 @@ def run(ctx):
             # ZUC-256 and the 128-EEA3 constructors; bucket sizes that are rounded up by the constructor
             ("var", 6, dict(Variants=q(["z256", "eea"]), Buckets=S([1, 127, 129]), Plain="TRUE", Lens=S(SEAM), Offs=S(SEAM),
                             AtLens=S([0, 4, 128, 131, 257]), MaxOps=2, MaxPos=1300)),
+            # one long call that crosses several bucket boundaries (bucket > one 128-byte round), then backward seeks
+            # beyond 2*bucket: the snapshot positions must be multiples of the bucket size
+            ("long", 4, dict(Variants=q(["z128"]), Buckets=S([129, 256, 300]), Plain="FALSE", Lens=S([100, 700, 1000]), Offs=S([0, 300, 520, 600, 770, 1001]),
+                             AtLens=S([1, 100]), MaxOps=3, MaxPos=2300)),
         ]
         mjobs = [
             # every bit length 0..300 in one Finish call
